@@ -278,6 +278,20 @@ fn date_sufficient(m: &[bool; NF], gy: Grp, gi: Grp) -> bool {
     (gy == Grp::Determinate && ((m[MONTH] && m[DAY]) || m[ORD] || (m[WSUN] && m[WDAY]) || (m[WMON] && m[WDAY])))
         || (gi == Grp::Determinate && m[IWEEK] && m[WDAY])
 }
+/// `DateSufficient` / `TimeSufficient` of Spec/ParsedSpec.lean by field PRESENCE (any record)
+fn present_date_sufficient(f: &Fields) -> bool {
+    let p = |i: usize| f[i].is_some();
+    let usable = |y: usize| !(!p(y) && p(y + 1) && !p(y + 2));
+    let has_year = |y: usize| p(y) || p(y + 2);
+    usable(YEAR)
+        && usable(IYEAR)
+        && ((has_year(YEAR) && ((p(MONTH) && p(DAY)) || p(ORD) || (p(WSUN) && p(WDAY)) || (p(WMON) && p(WDAY))))
+            || (has_year(IYEAR) && p(IWEEK) && p(WDAY)))
+}
+fn present_time_sufficient(f: &Fields) -> bool {
+    let p = |i: usize| f[i].is_some();
+    p(HDIV) && p(HMOD) && p(MIN) && (!p(NANO) || p(SEC))
+}
 fn time_sufficient(m: &[bool; NF]) -> bool {
     m[HDIV] && m[HMOD] && m[MIN] && (!m[NANO] || m[SEC])
 }
@@ -505,6 +519,49 @@ fn run_case(c: &mut Ctx, case: &Case, offs: &[i32]) {
         if r.is_err() {
             c.fail("to_naive_datetime_with_offset panicked", &format!("[{}] off {}", dump, off));
         }
+        // which error (every record; theorems datetime_error_kinds / datetime_not_enough_iff): judged from
+        // the results of the two component resolvers and from field presence only
+        if !s.starts_with("panic") && !sd.starts_with("panic") && !stt.starts_with("panic") {
+            let both = sd.starts_with("ok") && stt.starts_with("ok");
+            if f[TS].is_none() {
+                let want = if sd.starts_with("err") {
+                    sd.clone()
+                } else if stt.starts_with("err") {
+                    stt.clone()
+                } else {
+                    format!("ok {} {}", &sd[3..], &stt[3..])
+                };
+                c.count("kinds:dt:no-timestamp");
+                if s != want {
+                    c.fail("to_naive_datetime_with_offset without timestamp: not the date's error, else the time's error, else the pair", &format!("[{}] off {} -> {} (date {}, time {})", dump, off, s, sd, stt));
+                }
+            } else if !both {
+                let oor = sd == "err OutOfRange" || stt == "err OutOfRange";
+                let imp = sd == "err Impossible" || stt == "err Impossible";
+                if oor {
+                    c.count("kinds:dt:ts:out-of-range-first");
+                    if s != "err OutOfRange" {
+                        c.fail("to_naive_datetime_with_offset with timestamp: an out-of-range field must be reported as OutOfRange", &format!("[{}] off {} -> {}", dump, off, s));
+                    }
+                } else if imp {
+                    c.count("kinds:dt:ts:impossible-first");
+                    if s != "err Impossible" {
+                        c.fail("to_naive_datetime_with_offset with timestamp: contradicting fields must be reported as Impossible", &format!("[{}] off {} -> {}", dump, off, s));
+                    }
+                } else {
+                    c.count("kinds:dt:ts:fallback");
+                }
+            }
+            if s == "err NotEnough" {
+                c.count(if f[TS].is_some() { "kinds:dt:not-enough:with-timestamp" } else { "kinds:dt:not-enough:no-timestamp" });
+                if present_date_sufficient(f) && present_time_sufficient(f) {
+                    c.fail("to_naive_datetime_with_offset: NotEnough for a set holding a sufficient date and time combination", &format!("[{}] off {}", dump, off));
+                }
+                if f[TS].is_some() && !(f[IYEAR].is_none() && f[IDIV].is_some() && f[IMOD].is_none()) {
+                    c.fail("to_naive_datetime_with_offset: NotEnough although a timestamp is supplied (and the ISO year group is not century-only)", &format!("[{}] off {}", dump, off));
+                }
+            }
+        }
     }
     // ---- to_datetime ----
     let rz = guard(|| p.to_datetime());
@@ -523,6 +580,33 @@ fn run_case(c: &mut Ctx, case: &Case, offs: &[i32]) {
     }
     if rz.is_err() {
         c.fail("to_datetime panicked", &dump);
+    }
+    // which error (theorems to_datetime_error_kinds / to_datetime_not_enough_iff)
+    if !szs.starts_with("panic") {
+        if f[OFF].is_none() && f[TS].is_none() {
+            c.count("kinds:datetime:no-offset-no-timestamp");
+            if szs != "err NotEnough" {
+                c.fail("to_datetime: neither offset nor timestamp must be NotEnough", &format!("[{}] -> {}", dump, szs));
+            }
+        } else {
+            let o = f[OFF].unwrap_or(0) as i32;
+            let rn = guard(|| p.to_naive_datetime_with_offset(o));
+            let sn = show(rn.clone(), sdt);
+            if sn.starts_with("err") {
+                c.count("kinds:datetime:naive-error");
+                if szs != sn {
+                    c.fail("to_datetime: the error of the naive stage must be passed on", &format!("[{}] -> {} (naive stage at {}: {})", dump, szs, o, sn));
+                }
+            } else if let Ok(Ok(l)) = &rn {
+                let valid = -86400 < o && o < 86400;
+                let rep = valid && l.checked_sub_offset(FixedOffset::east_opt(o).unwrap()).is_some();
+                let want_kind = if !valid { "err OutOfRange" } else if !rep { "err Impossible" } else { "ok" };
+                c.count(&format!("kinds:datetime:naive-ok:{}", kind_of(want_kind)));
+                if !szs.starts_with(want_kind) {
+                    c.fail("to_datetime: wrong outcome after a successful naive stage", &format!("[{}] -> {} (expected {})", dump, szs, want_kind));
+                }
+            }
+        }
     }
     // ---- to_datetime_with_timezone (fixed zones, incl. Utc) ----
     let z = match (case.real, c.rng.below(3)) {
@@ -553,6 +637,45 @@ fn run_case(c: &mut Ctx, case: &Case, offs: &[i32]) {
     }
     if rw.is_err() {
         c.fail("to_datetime_with_timezone panicked", &format!("[{}] tz {}", dump, z));
+    }
+    // which error (theorems to_datetime_with_timezone_error_kinds / …_not_enough_iff)
+    if !sw.starts_with("panic") {
+        let guessed = match f[TS] {
+            None => Some(0),
+            Some(ts) => {
+                let n = f[NANO].unwrap_or(0);
+                // representable instant: inside [MIN_UTC, MAX_UTC], sub-second count below 10^9 (or a leap
+                // second representation on a second :59)
+                let rep = (MIN_TS..=MAX_TS).contains(&ts) && (n < 1_000_000_000 || (n < 2_000_000_000 && ts.rem_euclid(60) == 59));
+                if rep { Some(z) } else { None }
+            }
+        };
+        match guessed {
+            None => {
+                c.count("kinds:tz:timestamp-unrepresentable");
+                if sw != "err OutOfRange" {
+                    c.fail("to_datetime_with_timezone: an unrepresentable timestamp must be OutOfRange", &format!("[{}] tz {} -> {}", dump, z, sw));
+                }
+            }
+            Some(g) => {
+                let rn = guard(|| p.to_naive_datetime_with_offset(g));
+                let sn = show(rn.clone(), sdt);
+                if sn.starts_with("err") {
+                    c.count("kinds:tz:naive-error");
+                    if sw != sn {
+                        c.fail("to_datetime_with_timezone: the error of the naive stage must be passed on", &format!("[{}] tz {} -> {} (naive stage at {}: {})", dump, z, sw, g, sn));
+                    }
+                } else if let Ok(Ok(l)) = &rn {
+                    let rep = l.checked_sub_offset(tz).is_some();
+                    let off_ok = f[OFF].map_or(true, |o| o == z as i64);
+                    let want_kind = if rep && off_ok { "ok" } else { "err Impossible" };
+                    c.count(&format!("kinds:tz:naive-ok:{}", kind_of(want_kind)));
+                    if !sw.starts_with(want_kind) {
+                        c.fail("to_datetime_with_timezone: wrong outcome after a successful naive stage", &format!("[{}] tz {} -> {} (expected {})", dump, z, sw, want_kind));
+                    }
+                }
+            }
+        }
     }
 
     // ---- completeness / error-kind oracles for unperturbed derived sets ----
